@@ -174,9 +174,9 @@ func (vm *VM) convertPanic(msg any) error {
 		if err, ok := msg.(string); ok && strings.HasPrefix(err, "reflect: cannot convert slice with length") {
 			return vm.newPanic(runtimeError("runtime error:" + err[len("reflect:"):]))
 		}
-	case OpDelete:
+	case OpDelete, OpMapIndex, -OpMapIndex:
 		if err, ok := msg.(runtime.Error); ok {
-			if s := err.Error(); strings.HasPrefix(s, "hash of unhashable type: ") {
+			if s := err.Error(); isUnhashableError(s) {
 				return vm.newPanic(runtimeError(s))
 			}
 		}
@@ -231,8 +231,7 @@ func (vm *VM) convertPanic(msg any) error {
 	case OpSetMap, -OpSetMap:
 		if err, ok := msg.(runtime.Error); ok {
 			s := err.Error()
-			if s == "assignment to entry in nil map" ||
-				strings.HasPrefix(s, "runtime error: hash of unhashable type ") {
+			if s == "assignment to entry in nil map" || isUnhashableError(s) {
 				return vm.newPanic(runtimeError(s))
 			}
 		}
@@ -253,6 +252,14 @@ func (vm *VM) convertPanic(msg any) error {
 		return vm.newPanic(msg)
 	}
 	return &fatalError{msg: msg}
+}
+
+// isUnhashableError reports whether s is the message of the runtime error
+// for a map key with an unhashable dynamic type. The Go runtime uses two
+// different messages, depending on the operation and on the size of the map.
+func isUnhashableError(s string) bool {
+	return strings.HasPrefix(s, "runtime error: hash of unhashable type ") ||
+		strings.HasPrefix(s, "hash of unhashable type: ")
 }
 
 type PanicError struct {
